@@ -319,14 +319,14 @@ func RefDistance(env MetricEnv, x, y []float32) float64 {
 			d := float64(x[i]) - float64(y[i])
 			s += d * d
 		}
-		return s
+		return f32range(s)
 	case models.DistanceDot, models.DistanceCosine:
 		s := 0.0
 		for i := range x {
 			s += float64(x[i]) * float64(y[i])
 		}
 		if env.Metric == models.DistanceDot {
-			return -s
+			return f32range(-s)
 		}
 		return 1 - s
 	case models.DistanceHaversine:
@@ -341,7 +341,25 @@ func RefDistance(env MetricEnv, x, y []float32) float64 {
 func tol(d float64) float64 { return 1e-4*math.Abs(d) + 1e-5 }
 
 // Near reports whether two distances / scores agree up to float32 rounding.
-func Near(a, b float64) bool { return math.Abs(a-b) <= tol(a)+tol(b) }
+func Near(a, b float64) bool {
+	if a == b || (math.IsNaN(a) && math.IsNaN(b)) {
+		// equal infinities (a float32 distance that overflowed on both sides), or 0 * Inf on both sides
+		return true
+	}
+	return math.Abs(a-b) <= tol(a)+tol(b)
+}
+
+// f32range maps a float64 value of the definition onto what a float32 result can hold:
+// beyond the largest float32 the kernels return an infinity.
+func f32range(s float64) float64 {
+	if s > math.MaxFloat32 {
+		return math.Inf(1)
+	}
+	if s < -math.MaxFloat32 {
+		return math.Inf(-1)
+	}
+	return s
+}
 
 // ---- vector searches ----
 
